@@ -278,6 +278,13 @@ func checkC10Call(env *core.Env, w *authWorld, h *regHost, res *callResult, requ
 				if !set.contains(ch) {
 					env.Failf("C10/token-request-scope", "a retried token request after challenge %q asked for %s, which does not cover the challenge. %s", lastChallenge.challengeScope, set, describeOuts(res.outs))
 				}
+			case lastChallenge == nil && retryOfPrev:
+				// (a second try after the token server refused the first - without the
+				// POST endpoint, or with less asked for - still has to be good for the request
+				// it is made for)
+				if !set.contains(reqSet) {
+					env.Failf("C10/token-request-scope", "a retried proactive token request (required %q, desired %q) asked for %s, which does not cover the required scope. %s", required, desired, set, describeOuts(res.outs))
+				}
 			case lastChallenge == nil && !retryOfPrev:
 				if !set.contains(reqSet.union(desSet)) {
 					env.Failf("C10/token-request-scope", "a proactive token request (required %q, desired %q) asked for %s only. %s", required, desired, set, describeOuts(res.outs))
